@@ -73,7 +73,25 @@ func (x *Exec) evalCall(s *State, call *ast.CallExpr) []*Value {
 		sig := c.Type().(*types.Signature)
 		var recv *Value
 		if recvExpr != nil && sig.Recv() != nil {
-			recv = x.eval(s, recvExpr)
+			// pointer-receiver method on an addressable local struct variable: Go passes &v, writes reach v
+			if _, wantPtr := sig.Recv().Type().Underlying().(*types.Pointer); wantPtr {
+				if id, ok := unparen(recvExpr).(*ast.Ident); ok {
+					if o, ok := info.ObjectOf(id).(*types.Var); ok && !o.IsField() {
+						_, isPtr := o.Type().Underlying().(*types.Pointer)
+						_, isStruct := o.Type().Underlying().(*types.Struct)
+						if !isPtr && isStruct && strings.Contains(namedPath(o.Type()), "/comdex/") && !isKeeperLike(o.Type()) {
+							if cell, ok := x.cur.env.Lookup(o); ok {
+								if cv := s.Heap[cell]; cv != nil && cv.K == KStruct {
+									recv = &Value{K: KPtr, Typ: types.NewPointer(o.Type()), Cell: cell, NilT: False}
+								}
+							}
+						}
+					}
+				}
+			}
+			if recv == nil {
+				recv = x.eval(s, recvExpr)
+			}
 		}
 		args := x.evalArgs(s, call, nil, sig)
 		return x.callFunc(s, c, recv, recvExpr, args, call)
